@@ -39,6 +39,7 @@ LEVEL_NOTE = ("The hash functions are arbitrary (no law assumed). For dag-cbor t
 TRUSTED = ["hash functions: arbitrary Section variables hasher_ok/hash (no law assumed); real digests enter the extracted model as per-record tables",
            "dag-json and json codecs: Section-level codec values; laws assumed where stated: roundtrips, order_insensitive (C04); their real behaviour enters the model run as per-record tables",
            "dag-cbor round-trip / order-insensitivity: C02's theorems (Proofs/CborEnc.v encb_perm_invariant, Proofs/CborDec.v decode_encode) about the hand-written model coq/Codec/Cbor.v of dagcbor + refmt",
+           "large blocks (1-16 MiB) travel under run-length NAMES (harness/lib/link_big.go): the model is run on the names with hash tables keyed by names; sound because the model is parametric in the hash and touches such blocks only through hash, equality and codec (raw: concrete model on names; dag-cbor: tables for these records)",
            "go-cid / go-multihash / go-varint (Prefix, NewCidV0/V1, Encode, PutUvarint): hand-modelled in coq/Link/LinkSys.v; tied by correspondence only",
            "node implementations (basicnode, bindnode) abstracted to the data-model value they hold; tied by correspondence only"]
 RULE = ("random histories of Store / ComputeLink / Load / LoadRaw / LoadPlusRaw / Fill on one LinkSystem (global or a "
